@@ -42,8 +42,55 @@ def parse_out(out):
 
 
 def operands(case):
+    """(op, operands); a leading `at <n>` (operand placement, see AT) is not part of the operation"""
     w = case.split()
+    if w[0] == "at":
+        w = w[2:]
     return w[0], [C.unhex(x) for x in w[1:]]
+
+
+def placed(case):
+    return case.startswith("at ")
+
+
+FILLS = [0xAA, SL, 0x00, 0x61]
+
+
+def AT(ka, kb=0, fill=0):
+    """`at <n> ` prefix: the harness makes the first operand a sub-slice starting at an address = ka (mod 16), the
+    second at kb (mod 16), with FILLS[fill] in the 32 bytes before and the <= 15 readable bytes behind each of them
+    (without the prefix an operand ends exactly at a PROT_NONE page, so its start alignment is tied to its length)"""
+    return "at %d " % (ka + 16 * kb + 256 * fill)
+
+
+class Pool:
+    """NUL-free filler bytes: slices at random offsets of one random buffer (cheap for megabytes of cases)"""
+
+    def __init__(self, r, alphabet, n=12288):
+        self.r = r
+        self.b = r.bytes(n, alphabet)
+
+    def take(self, n):
+        o = self.r.below(len(self.b) - n + 1)
+        return self.b[o:o + n]
+
+
+def positions(r, n, dense=96, edge=48, mid=32):
+    """every index of a length-n operand when n <= dense, else the first/last `edge` ones and `mid` random inner ones"""
+    if n <= max(dense, 2 * edge + 1):
+        return list(range(n))
+    ps = set(range(edge)) | set(range(n - edge, n))
+    for _ in range(mid):
+        ps.add(r.range(edge, n - edge - 1))
+    return sorted(ps)
+
+
+ALL16 = list(range(16))
+
+
+def mod8_cover(r):
+    """8 start alignments covering every residue modulo 8 (each randomly in the lower or upper half of a 16-byte line)"""
+    return [k + 8 * r.below(2) for k in range(8)]
 
 
 def long_random(rng, n, alphabet, maxlen=5000):
@@ -140,7 +187,7 @@ def judge(case, out):
 
 
 def sig_of(case, out, why):
-    return {"op": case.split()[0], "kind": why.split(":")[0]}
+    return {"op": operands(case)[0], "kind": why.split(":")[0]}
 
 
 # ------------------------------------------------------------------ cases
@@ -198,10 +245,86 @@ def gen_cases(ctx):
     return cases
 
 
+BOUNDARY_LENS = [63, 64, 65, 127, 128, 129, 254, 255, 256, 257, 300]
+PATH_MAX_LENS = [4095, 4096, 4097]
+COMPONENT_LENS = [1, 2, 100, 253, 254, 255, 256, 257, 258, 300, 511, 512, 513, 1000, 4094, 4095, 4096, 4097]
+PREFIXES = [b"/", b"a/", b"/tmp/", b"/x/yy/", b"./", b"//", b"a//", b"a" * 300 + b"/", b"/" + b"b" * 255 + b"/"]
+
+
+def long_component_paths(r):
+    """contents (no terminator) built around ONE long component: prefix + '/' + component, with and without a trailing
+    separator, and the component alone"""
+    out = []
+    for c in COMPONENT_LENS:
+        comp = bytes([r.choice([0x61, 0x62, 0x2E, 0xFF])]) * c
+        out.append(comp)
+        for pre in PREFIXES:
+            out.append(pre + comp)
+            if r.chance(1, 3):
+                out.append(pre + comp + b"/")
+    return out
+
+
+def gen_placed(ctx):
+    """operand ADDRESS and LENGTH as explored dimensions: every constructor / conversion is handed sub-slices at chosen
+    start alignments, with a NUL planted at every position (alone, and together with a terminator), over all lengths up
+    to 48 (thorough 80) and at the 64/128/NAME_MAX/PATH_MAX boundaries; path operations on long single components"""
+    quick = ctx.tier == "quick"
+    r = ctx.rng
+    bin_pool = Pool(r, [0x61, SL, 0x2E, 0x01, 0x7F, 0x80, 0x81, 0xFE, 0xFF])
+    asc_pool = Pool(r, [0x61, SL, 0x2E, 0x01, 0x7F, 0x41])
+    cases = []
+
+    def emit(op, ka, s, kb=0, b=None):
+        cases.append(AT(ka, kb, r.below(4)) + op + " " + hx(s) + ("" if b is None else " " + hx(b)))
+
+    def body(op, n):
+        if r.chance(1, 4):
+            return b"a" * n
+        return (asc_pool if op in STR_OPS else bin_pool).take(n)
+
+    def nul_grid(op, lengths, aligns, dense=96, edge=48, mid=32):
+        for n in lengths:
+            for ka in aligns():
+                emit(op, ka, body(op, n))                      # no NUL anywhere
+                for p in positions(r, n, dense, edge, mid):
+                    b = bytearray(body(op, n))
+                    b[p] = 0
+                    emit(op, ka, bytes(b))                     # one NUL, at p (p = n-1: the well-formed string)
+                    if p < n - 1:
+                        b[n - 1] = 0
+                        emit(op, ka, bytes(b))                 # a NUL at p AND a terminator
+
+    short = list(range(0, 49 if quick else 81))
+    nul_grid("ustr_bytes", short, lambda: ALL16)
+    nul_grid("ustr_bytes", BOUNDARY_LENS, lambda: ALL16, dense=0, edge=24, mid=16)
+    nul_grid("ustr_bytes", PATH_MAX_LENS, lambda: [r.below(16) for _ in range(4)], dense=0, edge=20 if quick else 48, mid=4)
+    sec_short = list(range(0, 25 if quick else 49)) + [31, 32, 33, 40]
+    for op in ["ustr_str", "ustring_bytes", "ustring_str", "const", "dname"]:
+        nul_grid(op, sec_short, lambda: mod8_cover(r))
+        nul_grid(op, [64, 255, 256, 257], lambda: mod8_cover(r), dense=0, edge=20, mid=8)
+    for op in ["ustring_vec", "ustring_vec_cap", "ustring_string", "ustring_string_cap", "ustring_fromstr", "format"]:
+        nul_grid(op, [17, 24, 33, 256], lambda: [r.below(16)], dense=0, edge=17, mid=4)
+    # path operations: long single components (NAME_MAX / PATH_MAX boundaries), any alignment
+    paths = long_component_paths(r)
+    for c in paths:
+        for op in ["parent", "file_name", "own"]:
+            emit(op, r.below(16), c + b"\0")
+    for _ in range(120 if quick else 1200):
+        a, b = r.choice(paths), r.choice(paths)
+        a = a[:r.choice([len(a), 254, 255, 256])]
+        emit("join", r.below(16), a + b"\0", r.below(16), b + b"\0")
+        if all(x < 0x80 for x in b):
+            emit("join_fmt", r.below(16), a + b"\0", r.below(16), b)
+    return cases
+
+
 def malformed_cases():
     return ["", "nop 61", "ustr_bytes", "ustr_bytes 6", "ustr_bytes zz", "ustr_bytes 61 62 63", "ustr_str ff00",
             "format ff", "const c3a900", "join 6100", "find 6100", "parent 6100 6100", "join_fmt 6100 ff",
-            "match_str 6100 ff", "USTR_BYTES 6100", "join 6100 6", "- -", "own"]
+            "match_str 6100 ff", "USTR_BYTES 6100", "join 6100 6", "- -", "own",
+            "at 3 ustr_bytes", "at x ustr_bytes 6100", "at 1024 ustr_bytes 6100", "at -1 ustr_bytes 6100", "at 00003 ustr_bytes 6100",
+            "at 3 at 3 6100", "at 3 nop 6100", "at 3 join 6100", "at 3 find 6100 6100 6100", "at 3 mode debug", "at 3", "at"]
 
 
 def build(ctx, release=False):
@@ -223,8 +346,10 @@ def account(ctx, exe, cases, nsamples=6):
         kind = o.split()[0] if o else "?"
         if kind == "err":
             kind = o
-        lens = tuple(min(len(x), 3) for x in ops)
-        ctx.count((op, kind, lens, tuple(int(len(x) > 0 and x[-1] == 0) for x in ops)))
+        lens = tuple(min(len(x), 3) if len(x) < 255 else 255 for x in ops)
+        ctx.count((op, kind, lens, tuple(int(len(x) > 0 and x[-1] == 0) for x in ops), placed(c)))
+        if placed(c):
+            ctx.hist("placement", "start=%d mod 16" % (int(c.split()[1]) & 15))
         ctx.hist("outcomes", op + ":" + kind)
         if kind not in ("reject",) and shown.get(op, 0) < 1 and len(c) < 120 and any(len(x) > 2 for x in ops):
             shown[op] = 1
@@ -274,18 +399,28 @@ def run(ctx):
     ctx.rule = ("cases = every byte string of length <= 4 (thorough 6) over {a,/,.,NUL,0xff} through each constructor/conversion/"
                 "unary path operation, every NUL-free such string terminated through parent/file_name, join/join_fmt over all pairs "
                 "of raw strings of length <= 3 (4) over {a,/,NUL} and of terminated strings over {a,/,0xff}, unix_lit! table, random "
-                "strings up to 5000 bytes with a NUL planted at the end / inside / doubled; distinct_nontrivial = distinct "
-                "(operation, outcome kind, operand lengths capped at 3, operand ends in NUL) classes observed on the implementation")
+                "strings up to 5000 bytes with a NUL planted at the end / inside / doubled; PLACED stream (`at <n>`): operands are "
+                "sub-slices at chosen start addresses mod 16 between chosen surrounding bytes — try_from_bytes at all 16 alignments x every "
+                "length 0..48 (thorough 80) and 63..65/127..129/254..257/300 (+ 4 alignments x 4095..4097) x {no NUL, one NUL at every "
+                "position, that NUL plus a terminator}; the other borrowed/owned/const/d_name entry points on a mod-8-covering alignment "
+                "set x lengths 0..24,31..33,40,64,255..257 likewise; parent/file_name/own/join/join_fmt on paths around one component of "
+                "1..4097 bytes; distinct_nontrivial = distinct (operation, outcome kind, operand lengths capped at 3 or flagged >= 255, "
+                "operand ends in NUL, placed) classes observed on the implementation")
     ctx.assumptions += [
         "Model/UnixStr.lean describes rusl/src/string/unix_str.rs + strlen.rs::buf_strlen (checked by this run's correspondence, debug and release builds, raw as_slice() bytes)",
         "alloc::fmt::format(args) yields exactly the concatenated argument bytes (the model takes the formatted bytes as input; format shapes varied by the harness)",
         "str-typed entry points are exercised on ASCII (incl. NUL) inputs only; they forward to the byte versions (as_bytes/into_bytes)",
         "DirEntry::file_unix_name is modelled as buf_strlen + inclusive re-slice of d_name; the real getdents path is observed on a temp directory, not modelled",
         "unsafe constructors (from_*_unchecked, from_ptr) are outside the property",
+        "the model has no addresses (an operand is its byte list): that the real functions' results do not depend on the operand's start "
+        "alignment, on the bytes before/behind it, or on its being a sub-slice of a larger buffer is OBSERVED by the placed stream (16 "
+        "alignments, 4 surrounding fills, lengths to 4097), not proved; without `at` an operand ends at a PROT_NONE page (exact over-read "
+        "detection, alignment tied to length), with `at` up to 15 readable bytes follow it",
     ]
     ok = C.lean_prove(ctx, "TinyVerif.Props.C10", drivers=["drv_c10"])
     cases = gen_cases(ctx)
     good = run_streams(ctx, "ctor-path", cases, judge, sig_of)
+    run_streams(ctx, "ctor-path-placed", gen_placed(ctx), judge, sig_of)
     exe = build(ctx, False)
     if exe is None:
         return
